@@ -4,11 +4,11 @@
 #  2. demo passes without the patch and fails with it
 #  3. apply to /repo, run the given property checks (quick), undo straight afterwards
 ID="$1"; OUT="$2"; shift 2
-WT=/tmp/seed/eval_$ID
+WT=/tmp/seed_eval_$ID
 git -C /repo worktree remove --force "$WT" >/dev/null 2>&1
 git -C /repo worktree add -q --detach "$WT" HEAD || exit 3
 echo "== demo without the change"
-(cd "$WT" && sed "s#/tmp/seed/wt_[A-Za-z0-9_]*#$WT#g" "$OUT/demo.py" > /tmp/seed/demo_$ID.py && PYTHONPATH="$WT" timeout 600 /venv/bin/python /tmp/seed/demo_$ID.py > /tmp/seed/demo_$ID.base.log 2>&1; echo "exit=$?"; tail -2 /tmp/seed/demo_$ID.base.log)
+(cd "$WT" && sed "s#/tmp/seed2*/wt_[A-Za-z0-9_]*#$WT#g" "$OUT/demo.py" > /tmp/seed/demo_$ID.py && PYTHONPATH="$WT" timeout 600 /venv/bin/python /tmp/seed/demo_$ID.py > /tmp/seed/demo_$ID.base.log 2>&1; echo "exit=$?"; tail -2 /tmp/seed/demo_$ID.base.log)
 git -C "$WT" apply "$OUT/patch.diff" || { echo "PATCH DOES NOT APPLY"; git -C /repo worktree remove --force "$WT"; exit 3; }
 echo "== test suite with the change"
 (cd "$WT" && /venv/bin/python -m pytest -q -p no:cacheprovider 2>&1 | tail -1)
